@@ -19,6 +19,8 @@ RdIn(m, p, n)  == Slice(IF m.alias THEN m.o ELSE m.i, p, p + n - 1)    \* get_in
 RdOut(m, p, n) == Slice(m.o, p, p + n - 1)                              \* get_out (read)
 Wr(m, p, b)    == [m EXCEPT !.o = [j \in 1..Len(m.o) |-> IF j >= p /\ j < p + Len(b) THEN b[j - p + 1] ELSE m.o[j]]]
 
+Patch(blk, from, src) == [j \in 1..Len(blk) |-> IF j >= from /\ j < from + Len(src) THEN src[j - from + 1] ELSE blk[j]]
+
 (* which (mode, direction) declares ParBlocksSize = the cipher's width *)
 HasPar(kind, dir) == dir = "dec" /\ kind \in {"cbc", "cfb"}
 
@@ -117,4 +119,33 @@ ImplBlocks(kind, dir, c, ist, data, junk, b2b, multi, W, unit, bs) ==
            IN  [out |-> r.m.o, ist |-> r.ist]
       ELSE LET r == Singles(kind, dir, c, ist, m0, 1, unit, bs, n)
            IN  [out |-> r.m.o, ist |-> r.ist]
+
+--------------------------------------------------------------------------
+(* Buffered CFB (cfb-mode/src/encrypt/buf.rs:27-53, cfb-mode/src/decrypt.rs:40-65): state (iv, pos) as the  *)
+(* code keeps it - iv is E(previous ciphertext block) whose first pos bytes are already replaced by         *)
+(* ciphertext.  xor_set1 (encrypt): t = a xor b; a = t; b = t.   xor_set2 (decrypt): t = a; a = a xor b; b = t *)
+XorSet(dir, a, b) ==      \* a: data bytes, b: the same number of iv bytes; returns [a, b]
+  [a |-> XorBlk(a, b), b |-> IF dir = "enc" THEN XorBlk(a, b) ELSE a]
+
+RECURSIVE BufChunks(_, _, _, _, _)
+(* for chunk in data.chunks_exact_mut(bs): xor_set(chunk, iv); encrypt_block(iv) *)
+BufChunks(dir, c, iv, data, bs) ==
+  IF Len(data) < bs THEN [out |-> <<>>, iv |-> iv, rest |-> data]
+  ELSE LET x == XorSet(dir, Slice(data, 1, bs), iv)
+           r == BufChunks(dir, c, EncB(c, x.b), Slice(data, bs + 1, Len(data)), bs)
+       IN  [out |-> x.a \o r.out, iv |-> r.iv, rest |-> r.rest]
+
+BufInit(c, iv) == [iv |-> EncB(c, iv), pos |-> 0]                     \* inner_iv_init
+BufFromState(blk, pos) == [iv |-> blk, pos |-> pos]                   \* from_state
+ImplBuf(dir, c, st, data, bs) ==
+  LET n == Len(data) IN
+  IF n < bs - st.pos
+  THEN LET x == XorSet(dir, data, Slice(st.iv, st.pos + 1, st.pos + n))
+       IN  [out |-> x.a, st |-> [iv |-> Patch(st.iv, st.pos + 1, x.b), pos |-> st.pos + n]]
+  ELSE LET k    == bs - st.pos                                         \* split_at_mut(bs - pos)
+           x    == XorSet(dir, Slice(data, 1, k), Slice(st.iv, st.pos + 1, bs))
+           iv1  == EncB(c, Patch(st.iv, st.pos + 1, x.b))
+           r    == BufChunks(dir, c, iv1, Slice(data, k + 1, n), bs)
+           y    == XorSet(dir, r.rest, Slice(r.iv, 1, Len(r.rest)))   \* remainder
+       IN  [out |-> x.a \o r.out \o y.a, st |-> [iv |-> Patch(r.iv, 1, y.b), pos |-> Len(r.rest)]]
 =============================================================================
